@@ -362,11 +362,14 @@ pub fn inert(src: &mut Src, g: &G) -> String {
         6 => {
             // intermediates (never the DECSTR spelling)
             let im = (0x20 + src.below(0x10) as u8) as char;
-            let mut fin = (0x40 + src.below(0x3f) as u8) as char;
+            let mut fin = if src.chance(1, 3) { *src.pick(&['h', 'l', 'm', 'H', 'J', 'r', 'u', 's', 'A', 'L']) } else { (0x40 + src.below(0x3f) as u8) as char };
             if im == '!' && fin == 'p' {
                 fin = 'q';
             }
-            format!("{}{}{}{}", csi(src, g), *src.pick(&["", "1", "2;2"]), im, fin)
+            // optionally behind a private marker (also `?` with mode numbers): the
+            // intermediate makes the whole sequence unimplemented
+            let mk = if src.chance(1, 2) { *src.pick(&["<", "=", ">", "?", "?"]) } else { "" };
+            format!("{}{}{}{}{}", csi(src, g), mk, *src.pick(&["", "1", "2;2", "6", "7", "25", "1049", "1047", "4;20"]), im, fin)
         }
         7 => {
             // CSI that enters CsiIgnore
